@@ -57,6 +57,9 @@ MUTANTS = {
         ("pdcp-path-env-ignored", "src/pdsh/opt.c", 'getenv ("PDSH_REMOTE_PDCP_PATH")', 'getenv ("PDSH_REMOTE_PDCP_PATHX")'),
         ("unknown-rcmd-falls-back", "src/pdsh/opt.c", "        if (rcmd_register_default_rcmd(opt->rcmd_name) < 0)\n            exit(1);",
          "        if (rcmd_register_default_rcmd(opt->rcmd_name) < 0)\n            opt->rcmd_name = Strdup(rcmd_get_default_module ());"),
+        ("wcoll-unknown-type-ok", "src/pdsh/opt.c", "                    errx (\"%p: Failed to register rcmd \\\"%s\\\" for \\\"%s\\\"\\n\",",
+         "                    err (\"%p: Failed to register rcmd \\\"%s\\\" for \\\"%s\\\"\\n\","),
+        ("hostspec-order-check-dropped", "src/pdsh/opt.c", "    if (p && q && p > q)\n", "    if (0)\n"),
         ("misc-env-ignored", "src/pdsh/opt.c", 'getenv("PDSH_MISC_MODULES")', 'getenv("PDSH_MISC_MODULEZ")'),
         ("M-appends", "src/pdsh/opt.c", "                if (opt->misc_modules)\n                    Free ((void **) &opt->misc_modules);\n                opt->misc_modules = Strdup (optarg);",
          "                if (!opt->misc_modules)\n                opt->misc_modules = Strdup (optarg);"),
